@@ -35,7 +35,7 @@ CONSTANTS Fam,          \* alphabet family, see below
           MaxPost,      \* calls after the first Compile
           MaxBr,        \* branch calls
           MaxAfterErr,  \* calls after the first failed Add* (stickiness)
-          FixD5, FixD15, FixD7
+          FixD5, FixD15, FixD7, FixD30
 
 --------------------------------------------------------------------------------
 (* Alphabets.  Sequences start with a prologue chosen in Init (declaring    *)
@@ -78,6 +78,9 @@ Inits ==
              e \in {"int", "str"}}
     [] Fam = "sub" ->     \* a nested graph string -> string as a node, with / without input and output key
          {<<Hdr("graph", gi, go, FALSE), <<SubOp("n1", "str", "str", "str", x), PassOp("p1", "", "")>>>> : gi \in {"str", "msa"}, go \in {"str", "msa"}, x \in {"", "ik", "ok", "iok"}}
+    [] Fam = "wfpt" ->    \* workflow with a pass-through node between differently typed neighbours, field mappings on one of its edges
+         {<<Hdr("wf", "msa", "msa", FALSE), <<Plain("n1", "msa", "msa", "msa"), Plain("n2", "rec", "msa", "msa"), PassOp("p1", "", ""),
+                                               EdgeOp(START, "n1", "fm"), EdgeOp("n2", END, "fm")>>>>}
     [] Fam = "subopt" ->  \* a nested graph / workflow as a node, with compile options of its own (trigger mode, step limit)
          {<<Hdr("graph", "str", "str", FALSE), <<[SubOp("n1", "str", "str", "str", "") EXCEPT !.m = h], EdgeOp(START, "n1", ""), EdgeOp("n1", END, "")>>>> :
              h \in {"", "gms", "gall", "gallms", "wf", "wfms"}}
@@ -119,6 +122,7 @@ Alphabet(K) ==   \* K = keys declared so far
          \cup {[BranchOp(a, "str", <<"n2", END>>, END) EXCEPT !.x = "s1"] : a \in {START, "n1", "n2"}}
     [] Fam = "sub" ->
          {EdgeOp(p[1], p[2], "") : p \in {<<START, "n1">>, <<START, "p1">>, <<"p1", "n1">>, <<"n1", "p1">>, <<"n1", END>>, <<"p1", END>>, <<START, END>>}}
+    [] Fam = "wfpt" -> {EdgeOp("n1", "p1", x) : x \in {"", "fm", "fmr"}} \cup {EdgeOp("p1", "n2", x) : x \in {"", "fmr"}}
     [] Fam = "subopt" -> {}
     [] Fam = "cyc" ->
          {EdgeOp(p[1], p[2], "") : p \in {q \in {"n1", "n2", "n3"} \X {"n1", "n2", "n3", END} : q[1] # q[2] /\ q # <<"n2", "n3">>}}
@@ -265,27 +269,65 @@ DagOKOn(C) == LET RECURSIVE Rel(_)
 (* performs them in declaration order: target-path bookkeeping (checkAndAddMappedPath) first, then addEdgeWithMappings with          *)
 (* noControl (WithNoDirectDependency) or noData (AddDependency); then the static values of every node are checked against the        *)
 (* mapped paths and installed as a pre-node handler built from a SNAPSHOT of the values.                                            *)
-PathOf(x) == CASE x \in {"fm", "dfm"} -> "k" [] x \in {"fm2", "dfm2"} -> "k2" [] x = "c" -> "" [] OTHER -> "*"
+PathOf(x) == CASE x \in {"fm", "dfm"} -> "k" [] x = "fmr" -> "K" [] x \in {"fm2", "dfm2"} -> "k2" [] x = "c" -> "" [] OTHER -> "*"
 NoCtrl(x) == x \in {"dfm", "dfm2"}
 NoData(x) == x = "c"
-RECURSIVE WfFold(_, _)
-WfFold(i, R) ==
-  IF i > Len(wf.dfr) \/ R.res # "ok" THEN R
-  ELSE LET e == wf.dfr[i]  a == e.a  b == e.b  p == PathOf(e.x)
+\* types during the fold (R.nodes), worklist R.pend as in updateToValidateMap.  As coded a pass-through end takes the other end's type
+\* also across an edge WITH field mappings (where the two types are not meant to be equal); FixD30: such an entry waits until both
+\* ends are typed (fixes/D30-*.diff)
+OutOn(N, k) == IF k = START THEN hdr.gi ELSE IF k = END THEN hdr.go ELSE N[k].o
+InOn(N, k) == IF k = START THEN hdr.gi ELSE IF k = END THEN hdr.go ELSE N[k].i
+ProcOn(N, p) == LET so == OutOn(N, p[1])  ei == InOn(N, p[2]) IN
+                /\ ~(so = "nil" /\ ei = "nil")
+                /\ ((FixD30 /\ IsFM(p[3])) => (so # "nil" /\ ei # "nil"))
+\* the mapped-edge part of updateToValidateMap (graph.go:573-593; it also runs right after an inference across that edge):
+\* field_mapping.go validateFieldMapping, static part -- the source must have key k (a map), the target the mapped key / field:
+\* "fmr" names field K (struct rec or a map), the others key k / k2 (a map; the harness names K for a DECLARED rec node)
+FmStep(Rp, p, so, ei) ==
+  IF so \in {"msa", "nmsa", "any"}
+     /\ (IF p[3] = "fmr" THEN ei \in {"rec", "msa", "any"}
+         ELSE ei \in {"msa", "any"} \/ (ei = "rec" /\ p[2] # END /\ nodes[p[2]].kind = "typed"))
+  THEN [Rp EXCEPT !.fmk = Rp.fmk \cup {p[2]}]
+  ELSE [Rp EXCEPT !.res = "E", !.sticky = TRUE]
+RECURSIVE Settle(_)
+Settle(R) ==
+  LET P == {p \in R.pend : ProcOn(R.nodes, p)} IN
+  IF P = {} \/ R.res # "ok" THEN R
+  ELSE LET p == CHOOSE q \in P : TRUE  so == OutOn(R.nodes, p[1])  ei == InOn(R.nodes, p[2])
+           Rp == [R EXCEPT !.pend = R.pend \ {p}]
+           Rfwd == [Rp EXCEPT !.nodes[p[2]].i = so, !.nodes[p[2]].o = so]
+           Rbwd == [Rp EXCEPT !.nodes[p[1]].i = ei, !.nodes[p[1]].o = ei]
+       IN Settle(IF so # "nil" /\ ei = "nil" THEN (IF IsFM(p[3]) THEN FmStep(Rfwd, p, so, so) ELSE Rfwd)
+                 ELSE IF so = "nil" THEN (IF IsFM(p[3]) THEN FmStep(Rbwd, p, ei, ei) ELSE Rbwd)
+                 ELSE IF IsFM(p[3]) THEN FmStep(Rp, p, so, ei)
+                 ELSE IF Check(so, ei) = "mustnot" THEN [Rp EXCEPT !.res = "E", !.sticky = TRUE]
+                 ELSE Rp)
+\* the inputs are performed node by node in the iteration order of the workflowNodes MAP (ord = some order of the target nodes),
+\* each node's inputs in declaration order
+PermSeqs(T) == {q \in [1..Cardinality(T) -> T] : \A x, y \in 1..Cardinality(T) : q[x] = q[y] => x = y}
+WfOrders == IF hdr.fe = "wf" THEN PermSeqs({wf.dfr[i].b : i \in 1..Len(wf.dfr)}) ELSE {<<>>}
+IdxSeq(ord) == LET all == [i \in 1..Len(wf.dfr) |-> i]
+                   F[k \in 0..Len(ord)] == IF k = 0 THEN <<>> ELSE F[k - 1] \o SelectSeq(all, LAMBDA i : wf.dfr[i].b = ord[k])
+               IN F[Len(ord)]
+RECURSIVE WfFold(_, _, _)
+WfFold(i, R, idx) ==
+  IF i > Len(idx) \/ R.res # "ok" THEN R
+  ELSE LET e == wf.dfr[idx[i]]  a == e.a  b == e.b  p == PathOf(e.x)
            clash == p # "" /\ \E m \in R.mapped : m[1] = b /\ (m[2] = p \/ m[2] = "*" \/ p = "*")
            unknown == a = END \/ b = START \/ (~Known(a) /\ a # START) \/ (~Known(b) /\ b # END)
            dupc == ~NoCtrl(e.x) /\ <<a, b>> \in R.ctrl
            dupd == ~NoData(e.x) /\ <<a, b>> \in R.data
            R1 == [R EXCEPT !.mapped = IF p = "" THEN R.mapped ELSE R.mapped \cup {<<b, p>>}]
            R2 == IF NoCtrl(e.x) THEN R1 ELSE [R1 EXCEPT !.ctrl = R1.ctrl \cup {<<a, b>>}, !.startN = R1.startN \/ a = START, !.endN = R1.endN \/ b = END]
-           R3 == IF NoData(e.x) THEN R2 ELSE [R2 EXCEPT !.data = R2.data \cup {<<a, b>>}, !.fmk = IF IsFM(e.x) THEN R2.fmk \cup {b} ELSE R2.fmk]
+           R3 == IF NoData(e.x) THEN R2 ELSE Settle([R2 EXCEPT !.pend = R2.pend \cup {<<a, b, e.x>>}])
+           R4 == IF NoData(e.x) \/ R3.res # "ok" THEN R3 ELSE [R3 EXCEPT !.data = R3.data \cup {<<a, b>>}]
        IN IF clash THEN [R EXCEPT !.res = "E"]                          \* a workflow-level error, not recorded in buildError
           ELSE IF compiled THEN [R1 EXCEPT !.res = "C"]                   \* graph.go:235 (before the deferred recorder of buildError)
           ELSE IF unknown \/ dupc THEN [R1 EXCEPT !.res = "E", !.sticky = TRUE]
           ELSE IF dupd THEN [R2 EXCEPT !.res = "E", !.sticky = TRUE]       \* graph.go:277-282, also when this declaration carries control
-          ELSE WfFold(i + 1, R3)
+          ELSE WfFold(i + 1, R4, idx)
 
-DoCompile(op, j) ==
+DoCompileO(op, j, ord) ==
   LET isWf == hdr.fe = "wf"
       \* chain.go:88-121 addEndIfNeeded: END edge added once; before that the chain's own sticky error c.err is returned.
       \* Error VALUES (the harness tells "the very error seen before" from a new one): B = gg.buildError (= c.err of a failed Append*),
@@ -299,12 +341,14 @@ DoCompile(op, j) ==
              ELSE ""
       addEnd == isCh /\ ~ch.hasEnd /\ chV = ""
       endP == IF addEnd THEN {<<ch.pre, END>>} ELSE {}
-      R0 == [ctrl |-> ctrl \cup endP, data |-> data \cup endP, fmk |-> fmk, startN |-> startN, endN |-> endN \/ addEnd, mapped |-> wf.mapped, res |-> "ok", sticky |-> FALSE]
-      R == IF isWf /\ berr = 0 THEN WfFold(1, R0) ELSE R0
+      R0 == [ctrl |-> ctrl \cup endP, data |-> data \cup endP, fmk |-> fmk, startN |-> startN, endN |-> endN \/ addEnd, mapped |-> wf.mapped, res |-> "ok", sticky |-> FALSE,
+             nodes |-> nodes, pend |-> tv]
+      R == IF isWf /\ berr = 0 THEN WfFold(1, R0, IdxSeq(ord)) ELSE R0
+      UntypedR == {k \in Declared : R.nodes[k].i = "nil"}
       \* workflow.go:436-447: a static value's path must not be mapped yet -- after a first Compile its own path is
       svClash == isWf /\ R.res = "ok" /\ \E m \in wf.sv : m \in R.mapped
       wfres == IF R.res # "ok" THEN R.res ELSE IF svClash THEN "E" ELSE "ok"
-      err1 == ~R.startN \/ ~R.endN \/ tv # {} \/ (FixD15 /\ Untyped # {})
+      err1 == ~R.startN \/ ~R.endN \/ R.pend # {} \/ (FixD15 /\ UntypedR # {})
       \* graph.go:673-685: one more pre-node converter per field-mapped target, appended to the map the runners share
       pre2 == IF FixD7 THEN preNode ELSE [k \in AllKeys |-> IF k \in R.fmk THEN preNode[k] + 1 ELSE preNode[k]]
       dag == op.m = "all" \/ isWf
@@ -316,7 +360,7 @@ DoCompile(op, j) ==
              \* graph.go:697-705 compileIfNeeded: a nested graph is compiled with the node's own compile options, its refusal is the parent's
              ELSE IF \E k \in Declared : SubRefused(nodes[k].s) THEN "E"
              ELSE IF dag /\ ~DagOKOn(cpairs) THEN "E"
-             ELSE IF Untyped # {} THEN "P"               \* graph.go:809-811 dereferences the nil genericHelper of an untyped node
+             ELSE IF UntypedR # {} THEN "P"              \* graph.go:809-811 dereferences the nil genericHelper of an untyped node
              ELSE IF dag /\ op.x = "maxsteps" THEN "E"      \* graph.go:853: tested on the DERIVED mode (a workflow is all-predecessor by kind)
              ELSE "ok"
       \* graph.go:640-644: a chain refuses the trigger-mode option (after addEndIfNeeded)
@@ -335,7 +379,9 @@ DoCompile(op, j) ==
      /\ wf' = [wf EXCEPT !.dfr = IF isWf /\ berr = 0 /\ R.res = "ok" THEN <<>> ELSE wf.dfr,
                          !.mapped = IF wfres = "ok" /\ berr = 0 THEN R.mapped \cup wf.sv ELSE R.mapped]
      /\ Finish(res)
-     /\ UNCHANGED <<nodes, brs, tv, mayE>>
+     /\ nodes' = R.nodes /\ tv' = R.pend
+     /\ UNCHANGED <<brs, mayE>>
+DoCompile(op, j) == \E ord \in WfOrders : DoCompileO(op, j, ord)
 
 --------------------------------------------------------------------------------
 (* chain.go:522-566 Chain.addNode (the Append calls): returns nothing, the first failure is kept in c.err and reported by Compile.          *)
